@@ -23,15 +23,17 @@ Definition writes_infl (m : msg) : bool :=
   match m with Gated GInflEdit _ _ | Gated GInflToggle _ _ => true | _ => false end.
 Definition writes_meta (m : msg) : bool := match m with Gated GMeta _ _ => true | _ => false end.
 
-(** a message that is one privileged leaf, possibly under singleton MsgExec wrappers *)
+(** a message that is one privileged leaf, possibly under singleton carriers (MsgExec, contract execution) *)
 Fixpoint single_leaf (m : msg) : option msg :=
   match m with
   | Exec _ [x] => single_leaf x
   | Exec _ _ => None
+  | Wasm _ _ [x] => single_leaf x
+  | Wasm _ _ _ => None
   | _ => Some m
   end.
 
-Definition is_leaf (m : msg) : bool := match m with Exec _ _ => false | _ => true end.
+Definition is_leaf (m : msg) : bool := match m with Exec _ _ | Wasm _ _ _ => false | _ => true end.
 
 (** the authority a leaf needs, w.r.t. the sudoers (cr, cc) in force when it runs *)
 Definition authorised_b (cr : addr) (cc : list addr) (l : msg) : bool :=
@@ -40,7 +42,7 @@ Definition authorised_b (cr : addr) (cc : list addr) (l : msg) : bool :=
   | EditSudoers UnknownAction _ _ _ => false
   | ChangeRoot s _ => s =? cr
   | Gated _ s pv => (mem s cc || (s =? cr)) && pv
-  | Exec _ _ => false
+  | Exec _ _ | Wasm _ _ _ => false
   end.
 
 Definition authorised (cr : addr) (cc : list addr) (l : msg) : Prop :=
@@ -49,7 +51,7 @@ Definition authorised (cr : addr) (cc : list addr) (l : msg) : Prop :=
   | EditSudoers UnknownAction _ _ _ => False
   | ChangeRoot s _ => s = cr
   | Gated _ s pv => (In s cc \/ s = cr) /\ pv = true
-  | Exec _ _ => False
+  | Exec _ _ | Wasm _ _ _ => False
   end.
 
 (** what the edits carried by a tx do to the sudoers when every one of them succeeds *)
@@ -68,7 +70,7 @@ Definition unchanged (cr : addr) (cc : list addr) (o : obs) : Prop :=
   o_same_oracle o = true /\ o_same_infl o = true /\ o_same_meta o = true.
 
 (** one transaction, judged against the sudoers observed just before it *)
-Definition step_P (cr : addr) (cc : list addr) (tx : list msg) (o : obs) : Prop :=
+Definition step_P (cf : cfg) (cr : addr) (cc : list addr) (tx : list msg) (o : obs) : Prop :=
   (* a rejected privileged message changes no state *)
   (o_ok o = false -> unchanged cr cc o) /\
   (* only the current root edits the sudoers *)
@@ -79,17 +81,25 @@ Definition step_P (cr : addr) (cc : list addr) (tx : list msg) (o : obs) : Prop 
   (o_ok o = true -> (o_root o, o_contracts o) = apply_edits (leaves_tx tx) (cr, cc)) /\
   (* a single privileged message (direct or wrapped in authz exec) succeeds only with authority … *)
   (forall m l, tx = [m] -> single_leaf m = Some l -> o_ok o = true -> authorised cr cc l) /\
-  (* … and, sent directly, succeeds whenever it has it *)
-  (forall l, tx = [l] -> is_leaf l = true -> authorised cr cc l -> o_ok o = true) /\
+  (* … and, sent directly (by an account that can sign), succeeds whenever it has it *)
+  (forall l, tx = [l] -> is_leaf l = true -> is_contract cf (signer l) = false ->
+     authorised cr cc l -> o_ok o = true) /\
+  (* an accepted tx is well-authorised all the way down: every message of every carrier (MsgExec,
+     contract execution), wrappers included, is presented by the principal the carrier has
+     authenticated — nobody's name is used without its signature, its grant or its own dispatch *)
+  (o_ok o = true -> wa_tx cf tx = true) /\
+  (* a sudoer that is a CONTRACT exercises its authority by dispatching the message itself *)
+  (forall sd c l, tx = [Wasm sd c [l]] -> owner_ok cf c sd = true -> is_contract cf sd = false ->
+     is_leaf l = true -> signer l = c -> authorised cr cc l -> o_ok o = true) /\
   (* a store changes only when the tx carries the operation that writes it *)
   (o_same_oracle o = false -> exists m, In m (leaves_tx tx) /\ writes_oracle m = true) /\
   (o_same_infl o = false -> exists m, In m (leaves_tx tx) /\ writes_infl m = true) /\
   (o_same_meta o = false -> exists m, In m (leaves_tx tx) /\ writes_meta m = true).
 
-Fixpoint P (cr : addr) (cc : list addr) (t : list (list msg * obs)) : Prop :=
+Fixpoint P (cf : cfg) (cr : addr) (cc : list addr) (t : list (list msg * obs)) : Prop :=
   match t with
   | [] => True
-  | (tx, o) :: r => step_P cr cc tx o /\ P (o_root o) (o_contracts o) r
+  | (tx, o) :: r => step_P cf cr cc tx o /\ P cf (o_root o) (o_contracts o) r
   end.
 
 (* ------------------------------------------------------------------ boolean checker *)
@@ -98,7 +108,7 @@ Definition unchanged_b (cr : addr) (cc : list addr) (o : obs) : bool :=
   (o_root o =? cr) && list_eqb (o_contracts o) cc && o_same_sudo o &&
   o_same_oracle o && o_same_infl o && o_same_meta o.
 
-Definition step_Pb (cr : addr) (cc : list addr) (tx : list msg) (o : obs) : bool :=
+Definition step_Pb (cf : cfg) (cr : addr) (cc : list addr) (tx : list msg) (o : obs) : bool :=
   (o_ok o || unchanged_b cr cc o) &&
   (((o_root o =? cr) && list_eqb (o_contracts o) cc && o_same_sudo o) ||
    existsb (fun m => is_edit m && (signer m =? cr)) (leaves_tx tx)) &&
@@ -109,19 +119,26 @@ Definition step_Pb (cr : addr) (cc : list addr) (tx : list msg) (o : obs) : bool
    | [m] =>
        match single_leaf m with
        | Some l => (negb (o_ok o) || authorised_b cr cc l) &&
-                   (negb (is_leaf m && authorised_b cr cc m) || o_ok o)
+                   (negb (is_leaf m && negb (is_contract cf (signer m)) && authorised_b cr cc m) || o_ok o)
        | None => true
        end
+   | _ => true
+   end) &&
+  (negb (o_ok o) || wa_tx cf tx) &&
+  (match tx with
+   | [Wasm sd c [l]] =>
+       negb (owner_ok cf c sd && negb (is_contract cf sd) && is_leaf l && (signer l =? c) &&
+             authorised_b cr cc l) || o_ok o
    | _ => true
    end) &&
   (o_same_oracle o || existsb writes_oracle (leaves_tx tx)) &&
   (o_same_infl o || existsb writes_infl (leaves_tx tx)) &&
   (o_same_meta o || existsb writes_meta (leaves_tx tx)).
 
-Fixpoint Pb (cr : addr) (cc : list addr) (t : list (list msg * obs)) : bool :=
+Fixpoint Pb (cf : cfg) (cr : addr) (cc : list addr) (t : list (list msg * obs)) : bool :=
   match t with
   | [] => true
-  | (tx, o) :: r => step_Pb cr cc tx o && Pb (o_root o) (o_contracts o) r
+  | (tx, o) :: r => step_Pb cf cr cc tx o && Pb cf (o_root o) (o_contracts o) r
   end.
 
 Lemma list_eqb_eq a b : list_eqb a b = true -> a = b.
@@ -142,21 +159,23 @@ Qed.
 
 Lemma authorised_b_sound cr cc l : authorised_b cr cc l = true -> authorised cr cc l.
 Proof.
-  destruct l as [a s cs wf | s n | k s pv | g ms]; simpl.
+  destruct l as [a s cs wf | s n | k s pv | g ms | sd c ms]; simpl.
   - destruct a; simpl; try discriminate;
       rewrite andb_true_iff, Nat.eqb_eq; tauto.
   - apply Nat.eqb_eq.
   - rewrite andb_true_iff, orb_true_iff, Nat.eqb_eq, mem_In. tauto.
   - discriminate.
+  - discriminate.
 Qed.
 
 Lemma authorised_b_complete cr cc l : authorised cr cc l -> authorised_b cr cc l = true.
 Proof.
-  destruct l as [a s cs wf | s n | k s pv | g ms]; simpl.
+  destruct l as [a s cs wf | s n | k s pv | g ms | sd c ms]; simpl.
   - destruct a; simpl; try tauto;
       rewrite andb_true_iff, Nat.eqb_eq; tauto.
   - apply Nat.eqb_eq.
   - rewrite andb_true_iff, orb_true_iff, Nat.eqb_eq, mem_In. tauto.
+  - tauto.
   - tauto.
 Qed.
 
@@ -169,16 +188,16 @@ Qed.
 Lemma existsb_leaf (f : msg -> bool) (l : list msg) : existsb f l = true -> exists m, In m l /\ f m = true.
 Proof. intro H. apply existsb_exists in H. exact H. Qed.
 
-Lemma step_Pb_sound cr cc tx o : step_Pb cr cc tx o = true -> step_P cr cc tx o.
+Lemma step_Pb_sound cf cr cc tx o : step_Pb cf cr cc tx o = true -> step_P cf cr cc tx o.
 Proof.
   unfold step_Pb, step_P. rewrite !andb_true_iff.
-  intros [[[[[[H1 H2] He] H3] H4] H5] H6].
-  split; [|split; [|split; [|split; [|split; [|split; [|split]]]]]].
+  intros [[[[[[[[H1 H2] He] H3] Hw] Hc] H4] H5] H6].
+  split; [|split; [|split; [|split; [|split; [|split; [|split; [|split; [|split]]]]]]]].
   - intro Hk. rewrite Hk in H1. simpl in H1. apply unchanged_b_sound in H1. exact H1.
-  - intro Hc. apply orb_true_iff in H2 as [H2|H2].
+  - intro Hc'. apply orb_true_iff in H2 as [H2|H2].
     + rewrite !andb_true_iff, Nat.eqb_eq in H2. destruct H2 as [[Ha Hb] Hd].
-      apply list_eqb_eq in Hb. destruct Hc as [Hc|[Hc|Hc]]; try contradiction.
-      rewrite Hd in Hc. discriminate.
+      apply list_eqb_eq in Hb. destruct Hc' as [Hc'|[Hc'|Hc']]; try contradiction.
+      rewrite Hd in Hc'. discriminate.
     + apply existsb_leaf in H2 as (m & Hin & Hm). apply andb_true_iff in Hm as [Hm1 Hm2].
       apply Nat.eqb_eq in Hm2. exists m. auto.
   - intro Hok. rewrite Hok in He. simpl in He. apply andb_true_iff in He as [He1 He2].
@@ -187,16 +206,20 @@ Proof.
   - intros m l Htx Hl Hok. subst tx. rewrite Hl in H3.
     apply andb_true_iff in H3 as [H3 _]. rewrite Hok in H3. simpl in H3.
     apply authorised_b_sound. exact H3.
-  - intros l Htx Hleaf Hau. subst tx.
+  - intros l Htx Hleaf Hnc Hau. subst tx.
     assert (Hs : single_leaf l = Some l) by (destruct l; simpl in *; auto; discriminate).
     rewrite Hs in H3. apply andb_true_iff in H3 as [_ H3].
-    rewrite Hleaf, (authorised_b_complete _ _ _ Hau) in H3. simpl in H3. exact H3.
+    rewrite Hleaf, Hnc, (authorised_b_complete _ _ _ Hau) in H3. simpl in H3. exact H3.
+  - intro Hok. rewrite Hok in Hw. simpl in Hw. exact Hw.
+  - intros sd c l Htx Hown Hsd Hleaf Hsg Hau. subst tx.
+    rewrite Hown, Hsd, Hleaf, (authorised_b_complete _ _ _ Hau) in Hc.
+    apply Nat.eqb_eq in Hsg. rewrite Hsg in Hc. simpl in Hc. exact Hc.
   - intro Hk. rewrite Hk in H4. simpl in H4. apply existsb_leaf in H4. exact H4.
   - intro Hk. rewrite Hk in H5. simpl in H5. apply existsb_leaf in H5. exact H5.
   - intro Hk. rewrite Hk in H6. simpl in H6. apply existsb_leaf in H6. exact H6.
 Qed.
 
-Lemma Pb_sound t : forall cr cc, Pb cr cc t = true -> P cr cc t.
+Lemma Pb_sound cf t : forall cr cc, Pb cf cr cc t = true -> P cf cr cc t.
 Proof.
   induction t as [|[tx o] r IH]; intros cr cc H; simpl in *; auto.
   apply andb_true_iff in H as [H1 H2]. split.
